@@ -441,6 +441,7 @@ fn main() {
             }
         }
         Some("c13") => {
+            std::panic::set_hook(Box::new(|_| {}));
             // C13 under the crate's DEFAULT feature set (this binary is built with snappy only):
             // opening must accept exactly the trailers with a known magic, a complete record and a
             // codec id 0..=5, whatever codecs this build can decompress.
@@ -472,7 +473,14 @@ fn main() {
                             continue;
                         }
                         n += 1;
-                        let got = Reader::new(Cursor::new(bytes.as_slice())).is_ok();
+                        let got = match std::panic::catch_unwind(|| Reader::new(Cursor::new(bytes.as_slice())).is_ok()) {
+                            Ok(g) => g,
+                            Err(_) => {
+                                bad += 1;
+                                println!("C13DF-VIOLATION version={version} codec={codec} {what}: Reader::new PANICKED; hex={}", bytes.iter().map(|b| format!("{b:02x}")).collect::<String>());
+                                continue;
+                            }
+                        };
                         let want = codec <= 5;
                         if got != want {
                             bad += 1;
